@@ -93,7 +93,7 @@ func runC20(w *World, r *Report, tier string) {
 				parts = append(parts, fmt.Sprintf("%q", a.Const))
 			case rvAny(a.Val) == ssa.Value(addr):
 				parts = append(parts, "addr")
-			case itoaPort(a.Val):
+			case itoaPort(a.Val) || (a.Dec && isPort(a.Val)):
 				parts = append(parts, "Itoa(port)")
 			default:
 				parts = append(parts, "?"+w.nfOn(a.Val, path))
@@ -153,6 +153,15 @@ func runC20(w *World, r *Report, tier string) {
 				return cl.cb == truth, true
 			case body == fmt.Sprintf(`strings.Contains(%s,":")`, a):
 				return (cl.cnt >= 1) == truth, true
+			case body == fmt.Sprintf(`eq(91,index(%s,0))`, a) || body == fmt.Sprintf(`eq(index(%s,0),91)`, a):
+				// addr[0] == '[' (behind a length test): the bracket prefix
+				return cl.hp == truth, true
+			case body == fmt.Sprintf(`le(builtin.len(%s),0)`, a):
+				// the empty address: no bracket, no colon; every documented kind also has non-empty members
+				if truth {
+					return !cl.hp && cl.cnt == 0, true
+				}
+				return true, true
 			}
 			for _, op := range []string{"eq", "le"} {
 				for k := 0; k <= 3; k++ {
